@@ -14,16 +14,24 @@ class Model:
     def __init__(self, root_op="root"):
         self.nodes = {0: {"op": root_op, "parent": None, "children": [], "req": 0, "md": {}}}
         self.links: list[tuple] = []
+        self.anomalies: list[tuple] = []
 
     def clone(self):
         m = Model.__new__(Model)
+        m.anomalies = self.anomalies
         m.nodes = {k: {**v, "children": list(v["children"]), "md": dict(v["md"])}
                    for k, v in self.nodes.items()}
         m.links = list(self.links)
         return m
 
     def add_node(self, idx, op, parent, req=None, md=None):
-        assert idx not in self.nodes, f"index {idx} handed out while live"
+        if idx in self.nodes:
+            # the implementation handed out an index that is still live: a finding about the store, not a harness
+            # error (the node it clobbers is gone from the model too, later comparisons show the damage)
+            self.anomalies.append(("index-handed-out-while-live", f"a fresh index (live: {sorted(self.nodes)})", idx))
+            old = self.nodes.pop(idx)
+            if old["parent"] is not None and old["parent"] in self.nodes:
+                self.nodes[old["parent"]]["children"] = [c for c in self.nodes[old["parent"]]["children"] if c != idx]
         self.nodes[idx] = {"op": op, "parent": parent, "children": [], "req": req or 0, "md": dict(md or {})}
         if parent is not None:
             self.nodes[parent]["children"].append(idx)
@@ -88,6 +96,7 @@ def observe(h, handles=None, box=BOX):
     it = [n.idx for n in h]
     o["nodes"] = sorted(it)
     o["iter_dups"] = len(it) != len(set(it))
+    o["anomalies"] = []
     o["parent"], o["children"], o["op"], o["nin"], o["nout"] = {}, {}, {}, {}, {}
     o["out"], o["inc"], o["out_listing"], o["inc_listing"] = {}, {}, {}, {}
     o["order_out"], o["order_in"] = {}, {}
@@ -107,12 +116,26 @@ def observe(h, handles=None, box=BOX):
             lp = Counter((p.node.idx, p.offset) for p in h.linked_ports(n.inp(off)))
             if lp:
                 o["inc"][(i, off)] = lp
-        for port, lst in h.outgoing_links(n):
-            if lst:
-                o["out_listing"][(i, port.offset)] = Counter((p.node.idx, p.offset) for p in lst)
-        for port, lst in h.incoming_links(n):
-            if lst:
-                o["inc_listing"][(i, port.offset)] = Counter((p.node.idx, p.offset) for p in lst)
+        for what, listing, tgt in (("outgoing_links", h.outgoing_links(n), o["out_listing"]),
+                                   ("incoming_links", h.incoming_links(n), o["inc_listing"])):
+            seen_offs = []
+            for port, lst in listing:
+                seen_offs.append(port.offset)
+                if port.node.idx != i:
+                    o["anomalies"].append((what, f"entries of node {i}", f"an entry for node {port.node.idx}"))
+                if lst:
+                    # (an offset listed twice adds up: the multiset comparison with the model shows it)
+                    tgt.setdefault((i, port.offset), Counter()).update((p.node.idx, p.offset) for p in lst)
+            if len(seen_offs) != len(set(seen_offs)):
+                o["anomalies"].append((what, f"one entry per port of node {i}", sorted(seen_offs)))
+        # the same counts through the direction-generic spelling
+        from hugr.hugr.node_port import Direction
+
+        if (h.num_ports(n, Direction.INCOMING), h.num_ports(n, Direction.OUTGOING)) != (o["nin"][i], o["nout"][i]):
+            o["anomalies"].append(("num_ports", [o["nin"][i], o["nout"][i]],
+                                   [h.num_ports(n, Direction.INCOMING), h.num_ports(n, Direction.OUTGOING)]))
+        if (n in h) is not True:
+            o["anomalies"].append(("contains", f"Node({i}) in hugr", False))
         oo = Counter(m.idx for m in h.outgoing_order_links(n))
         if oo:
             o["order_out"][i] = oo
@@ -120,12 +143,42 @@ def observe(h, handles=None, box=BOX):
         if oi:
             o["order_in"][i] = oi
     o["links"] = Counter((s.node.idx, s.offset, t.node.idx, t.offset) for s, t in h.links())
+    # the other spellings of iteration and lookup
+    pairs = list(h.nodes())
+    if [n.idx for n, _ in pairs] != it or any(d is not h[n] for n, d in pairs):
+        o["anomalies"].append(("nodes()", it, [n.idx for n, _ in pairs]))
+    for name in ("keys", "values", "items"):
+        fn = getattr(h, name, None)
+        if fn is None:
+            continue
+        got = list(fn())
+        want = {"keys": [Node(i) for i in it], "values": [h[Node(i)] for i in it],
+                "items": [(Node(i), h[Node(i)]) for i in it]}[name]
+        if len(got) != len(want) or any(a != b and a is not b for a, b in zip(got, want)):
+            o["anomalies"].append((name + "()", f"{len(want)} entries in iteration order", f"{len(got)} entries / other"))
+    if h.root_op() is not h[h.root].op:
+        o["anomalies"].append(("root_op()", "the root node's operation", repr(h.root_op())))
+    # indices that were never handed out or are free now: unreachable
+    size = max(it) + 1 if it else 0
+    for absent in [size, size + 1, size + 7, *[j for j in range(size) if j not in set(it)][:3]]:
+        try:
+            h[Node(absent)]
+            o["anomalies"].append(("lookup", f"KeyError for Node({absent})", "a node"))
+        except KeyError:
+            pass
+        if Node(absent) in h:
+            o["anomalies"].append(("contains", f"Node({absent}) not in hugr", True))
     return o
 
 
 def compare(e, o, model: Model, report):
     """report(query, expected, observed) for every disagreement between model expectation e and
     observation o."""
+    for q, exp_, obs_ in o.get("anomalies", []):
+        report(q, exp_, obs_)
+    for q, exp_, obs_ in model.anomalies:
+        report(q, exp_, obs_)
+    model.anomalies.clear()
     if o["len"] != e["len"]:
         report("len", e["len"], o["len"])
     if o["num_nodes"] != e["len"]:
